@@ -36,6 +36,27 @@ except ImportError:  # pragma: no cover
     _OPAQUE = ()
 
 
+import enum as _enum
+
+
+class KeyE(str, _enum.Enum):
+    "keys as an analysis code base may declare them: members of a str-valued Enum (equal to, and hashed like, their value; str() differs)"
+    a = "a"
+    b = "b"
+    c = "c"
+    title = "title"
+
+
+class LoudKey(str):
+    def __str__(self):
+        return "<key " + str.__str__(self) + ">"
+
+
+def spellings(k, n):
+    """the key as a plain str, as a (str, Enum) member, as a str subclass whose __str__ says something else: one key to python"""
+    return (k, KeyE(k), LoudKey(k))[n % 3]
+
+
 def differs(got, exp):
     """is ``got`` something else than the value most recently set (not one that merely compares equal: 1 / True / 1.0, 0.0 / -0.0)"""
     if isinstance(exp, _OPAQUE) or isinstance(got, _OPAQUE):
@@ -70,7 +91,7 @@ def run_history(ctx, hseed, nsteps):
             for k in KEYS:
                 ctx.count("lookup-probes")
                 ctx.evaluations += 1
-                got = lookup_query_metadata(e.s, k)
+                got = lookup_query_metadata(e.s, spellings(k, ctx.evaluations))
                 exp = model[e.id].get(k)
                 if differs(got, exp):
                     why = "earlier-key-lost" if exp is not None and got is None else ("sees-unset-key" if exp is None else "wrong-value")
@@ -297,7 +318,59 @@ def nested_streams(ctx, nhist=10):
     ctx.count("nested-stream-histories", nhist)
 
 
+def callback_qmetadata(ctx, nhist=40):
+    """query metadata set by a CALLBACK while an operator is being built (func_adl_callback handing back s.QMetaData({..})) sits on the
+    derivation path like any other: it hides what was set before it, and setting the old value again afterwards counts"""
+    from func_adl import EventDataset, func_adl_callback
+    from func_adl.ast.meta_data import lookup_query_metadata
+
+    cell = [{}]
+
+    def cb(s_, a):
+        return (s_.QMetaData(dict(cell[0])) if cell[0] else s_), a
+
+    class Evt:
+        @func_adl_callback(cb)
+        def tagged(self) -> float: ...
+
+        def met(self) -> float: ...
+
+    class DS(EventDataset):
+        async def execute_result_async(self, a, title=None):
+            return a
+
+    for h in range(nhist):
+        rnd = random.Random(ctx.seed * 911 + ctx.shard * 17 + h)
+        streams = [(DS(Evt), {}, "ds")]
+        for step in range(rnd.randint(4, 12)):
+            s_, model, how = rnd.choice(streams[-3:])
+            k = rnd.random()
+            d = {rnd.choice(["a", "b"]): rnd.choice([1, 2, "x", 0, None])}
+            if k < 0.45:
+                ns, nm, nh = s_.QMetaData(dict(d)), {**model, **d}, how + f".QMetaData({d})"
+            elif k < 0.8:
+                cell[0] = d
+                ns, nm, nh = s_.Select("lambda e: e if e.tagged() > 1 else e"), {**model, **d}, how + f".Select(<a callback sets {d}>)"
+                cell[0] = {}
+            else:
+                ns, nm, nh = s_.Where("lambda e: e.met() > 1"), dict(model), how + ".Where"
+            streams.append((ns, nm, nh))
+            for st, mo, ho in streams:
+                for key in ("a", "b"):
+                    ctx.count("lookup-probes")
+                    ctx.evaluations += 1
+                    got, exp = lookup_query_metadata(st, key), mo.get(key)
+                    if differs(got, exp):
+                        why = "earlier-key-lost" if exp is not None and got is None else ("sees-unset-key" if exp is None else "wrong-value")
+                        ctx.violation(f"lookup:{why}:metadata-set-by-a-callback", f"lookup({ho[-260:]}, {key!r}) = {got!r}, the derivation path says {exp!r}", {"callback_qmetadata": True})
+                        return
+        ctx.case(f"callback-qmetadata-history:{h}", True)
+    ctx.count("callback-qmetadata-histories", nhist)
+
+
 def shard_main(ctx):
+    if ctx.shard in (1, 4, 7):
+        callback_qmetadata(ctx)
     if ctx.shard == 0:
         directed(ctx)
         bare_roots(ctx)
@@ -312,7 +385,9 @@ def shard_main(ctx):
 
 
 def replay(ctx, witness):
-    if witness.get("nested_streams"):
+    if witness.get("callback_qmetadata"):
+        callback_qmetadata(ctx)
+    elif witness.get("nested_streams"):
         nested_streams(ctx)
     elif witness.get("bare_roots"):
         bare_roots(ctx)
